@@ -47,13 +47,21 @@ def regenerate(ctx, Pm):
     """run the tracer in its own process; returns the manifest (or None)"""
     for d in (GEN, OBL):
         os.makedirs(d, exist_ok=True)
-    for d, pat in ((GEN, 'Gen_kern_'), (OBL, 'C16_')):
-        for f in os.listdir(d):
-            if f.startswith(pat) or (d == OBL and f.startswith('.C16_')):
-                try:
-                    os.remove(os.path.join(d, f))
-                except OSError:
-                    pass
+    sys.path.insert(0, lib.VERIF)
+    from tools.regen import tracer_c16 as TC
+    mine = {'Gen_kern_%s' % name for name, _, _ in TC.KERNELS}     # other properties own other kernels
+    for f in os.listdir(GEN):
+        if f.lstrip('.').split('.')[0] in mine:
+            try:
+                os.remove(os.path.join(GEN, f))
+            except OSError:
+                pass
+    for f in os.listdir(OBL):
+        if f.lstrip('.').startswith('C16_'):
+            try:
+                os.remove(os.path.join(OBL, f))
+            except OSError:
+                pass
     env = dict(os.environ)
     env['VERIF_REPO'] = lib.REPO
     env['PYTHONPATH'] = lib.VERIF
@@ -67,8 +75,6 @@ def regenerate(ctx, Pm):
         return None
     man = json.load(open(mpath))
     ctx.log('R: %s in %.1fs' % (p.stdout.strip().splitlines()[-1], time.time() - t0))
-    sys.path.insert(0, lib.VERIF)
-    from tools.regen import tracer_c16 as TC
     fns = {name: fn for name, fn, _ in TC.KERNELS}
     n_ok = 0
     for k in man['kernels']:
@@ -982,6 +988,7 @@ def run(ctx):
     cases = gen_cases(ctx.rng, ctx.tier, focus)                # stage K+S
     t0 = time.time()
     fails = {}
+    shown = {}
     for c in cases:
         prob, det, nontriv = run_case(c, Pm)
         fam = family_of(c)
@@ -993,11 +1000,17 @@ def run(ctx):
         if prob:
             ties = [('C16_' + b) for b in broken for pre, f in KERNEL_FAMILY if b.startswith(pre) and
                     (fam.startswith(f) or f.startswith(fam))]
-            res = ctx.fail(signature(c, prob, det), c, dict(det, problem=prob), tie=None)
+            sig = signature(c, prob, det)
             for t in ties:
                 ctx.concrete_found.add(t)
             fails[fam] = fails.get(fam, 0) + 1
-            if res == 'violation' and fails[fam] <= 3:
+            key = (fam, sig['problem'])
+            shown[key] = shown.get(key, 0) + 1
+            if lib.finding_for(ctx.prop, sig, ctx.findings) is None and shown[key] > 3:
+                ctx.count('further_failures_not_listed')       # same family and symptom: 3 replay files suffice
+                continue
+            res = ctx.fail(sig, c, dict(det, problem=prob), tie=None)
+            if res == 'violation':
                 ctx.log('FAIL %s %s: %s' % (fam, c['op'], prob[:200]))
     ctx.log('numeric: %d cases in %.1fs, failing families: %s' % (len(cases), time.time() - t0, fails))
     ctx.cov['numeric_failures_by_family'] = fails
